@@ -54,6 +54,10 @@ class AbstractDenseTimeOnlineInterpreter(AbstractOnlineInterpreter, DenseTimeInt
         # the dense-time operations have no reset of their own (their buffers are
         # initialised by their constructors): build a fresh set of operations
         self.set_ast(self.ast)
+        # samples of an update() that did not complete (it raised) must not reach the next one
+        for var_name in self.ast.free_vars:
+            if var_name in self.ast.var_object_dict and isinstance(self.ast.var_object_dict[var_name], (list, tuple)):
+                self.ast.var_object_dict[var_name] = []
         return
 
     def update_final(self, dataset):
